@@ -58,4 +58,18 @@ def sys0 : Sys :=
     reward := rewardInit 1 hubA 1 swapA [], disp := default, reg := regInit 1 hubA [],
     chain := chain0 }
 
+/-- the state after the standard genesis of the corpus (`corpus/genesis.inc`): the six
+    instantiations and the owner's UpdateConfig that wires the contracts together; used as the
+    concrete witness that the premises of the reachable-state theorems are satisfiable -/
+def genesisSys : Sys :=
+  let s1 : Sys := { sys0 with
+    hub := (hubInit 1 0 30 100 0 D 1 3).toOption.getD default,
+    bsei := (tokInit true hubA []).toOption.getD default,
+    stsei := (tokInit false hubA []).toOption.getD default,
+    reward := rewardInit 1 hubA 1 swapA [0, 1],
+    disp := (dispInit 1 hubA rewardA 0 1 keeperA (D / 20) swapA oracleA [0, 1, 2]).toOption.getD default,
+    reg := regInit 1 hubA [201] }
+  (s1.exec (.wasm 1 hubA (.hub (.updateConfig (some dispA) (some regA) (some bseiA) (some stseiA)
+    (some 4) (some rewardA) none)) [])).1
+
 end Krp
